@@ -2778,6 +2778,7 @@ func (c *Checker) checkMethodCompatibilityForAlgebraicTypes(baseMethod, override
 
 	typeArgs := make(types.TypeArgumentMap)
 	if !c.checkMethodCompatibilityAndInferTypeArgs(baseMethod, overrideMethod, errSpan, typeArgs) {
+		c.mode = prevMode
 		return false
 	}
 
